@@ -141,7 +141,10 @@ func classify(err error, qname string) Observed {
 		o.Text = ""
 	default:
 		var inner graphql.SanitizedError
-		if errors.Is(cause, context.Canceled) || errors.Is(cause, context.DeadlineExceeded) {
+		if cause == context.Canceled {
+			o.Class = "cancel"
+			o.Text = ctext
+		} else if errors.Is(cause, context.Canceled) || errors.Is(cause, context.DeadlineExceeded) {
 			o.Class = "cancelwrap"
 			o.Text = ctext
 		} else if errors.As(cause, &inner) {
